@@ -141,4 +141,16 @@ theorem ignore_block_frame (t : T) (h : t .ignoreTmp = none) (q : P) (hq : q ≠
     simp only [ignoreBlock, List.mem_cons, List.not_mem_nil, or_false] at hop
     rcases hop with rfl | rfl | rfl <;> simp [written, hq, hq2]
 
+/-- the order-preserving de-duplication yields a sublist: relative order is never changed -/
+theorem dedupAux_sublist {α κ : Type} [DecidableEq κ] (key : α → κ) (l : List α) :
+    ∀ seen, (dedupAux key seen l).Sublist l := by
+  induction l with
+  | nil => intro _; exact List.Sublist.refl _
+  | cons x xs ih =>
+    intro seen
+    unfold dedupAux
+    split
+    · exact List.Sublist.cons _ (ih seen)
+    · exact List.Sublist.cons_cons _ (ih _)
+
 end Scan
